@@ -202,6 +202,7 @@ ApiScope::ApiScope(const char *api, int obj, bool nonblocking) {
   prev = t->api; prevnb = t->api_nonblocking; prevobj = t->api_obj;
   t->api = api; t->api_nonblocking = nonblocking; t->api_obj = obj;
   t->api_depth++;
+  if (t->api_depth == 1) t->api_sys_base = t->syscalls;
   t->spin_addr = nullptr; t->spin_count = 0; t->spin_total = 0;
   if (R->shared) snprintf(R->shared->cur_api, sizeof R->shared->cur_api, "%s", api);
   R->trace_note = api;
@@ -478,7 +479,7 @@ void wait_all_others() {
     bool all = true;
     for (Task *t : R->tasks) if (t != me && t->state != T_FINISHED && t->state != T_DEAD) all = false;
     if (all) {
-      for (Task *t : R->tasks) if (t != me && t->state == T_FINISHED) me->vc.join(t->vc);   // like a join
+      for (Task *t : R->tasks) if (t != me) me->vc.join(t->vc);   // like a join (a killed task is ordered before whoever observes its death)
       return;
     }
     block(B_WAITALL, -1);
@@ -506,9 +507,14 @@ void exit_task() {
   abort();
 }
 
+void die_current() {
+  finish_current(T_DEAD);
+  abort();
+}
+
 void kill_task(Task *t) {
   if (t->state == T_FINISHED || t->state == T_DEAD) return;
-  if (t == R->current) infra_error("kill_task(current)");
+  if (t == R->current && t->state != T_BLOCKED) infra_error("kill_task(current)");   // a blocked current task is only executing the scheduler
   t->state = T_DEAD;
   ev("killed", t->id);
   for (Task *o : R->tasks) if (o->state == T_BLOCKED && o->bkind == B_WAITALL) wake(o);
@@ -518,6 +524,7 @@ void kill_task(Task *t) {
 namespace hb { void reset(); }
 void shim_run_begin();
 void shim_run_end();
+namespace kern { void run_begin(); void run_end(); }
 
 void run_one(const HarnessDef *h, uint64_t seed, const Decisions *replay, bool trace, Shared *shared, Run *out) {
   Run run;
@@ -534,6 +541,7 @@ void run_one(const HarnessDef *h, uint64_t seed, const Decisions *replay, bool t
   hb::reset();
   alloc::run_begin();
   shim_run_begin();
+  kern::run_begin();
   // per-run configuration (swarm) — draws through ST_GEN so that it is part of the replay
   run.cfg = Config();
   run.cfg.tier = g_tier;
@@ -559,6 +567,7 @@ void run_one(const HarnessDef *h, uint64_t seed, const Decisions *replay, bool t
   run.res.order_hash = run.order_hash;
   run.res.sim_ns = run.now_ns;
   for (int i = 0; i < ST_MAX; i++) run.res.fired[i] = run.fired[i];
+  kern::run_end();
   shim_run_end();
   alloc::run_end();
   for (Task *t : run.tasks) { stack_release(t->stack); }
